@@ -75,6 +75,7 @@ type FuncVC struct {
 	structs     map[string]*structInfo
 	structOrder []string
 	preDecls    []string
+	preDeclsEmitted int
 	strlits     map[string]Term
 	strEqDone   map[string]bool
 	quantDepth  int
@@ -87,6 +88,8 @@ type FuncVC struct {
 	localAlloc  map[*ssa.Alloc]bool
 	debugRefs   map[string][]*ssa.DebugRef
 	typeIDs     map[string]int
+	concreteTypes map[int]types.Type
+	ifaceTypes  map[int]types.Type
 	boxDecl     map[string]bool
 	funcDecl    map[string]bool
 	retCount    int
@@ -149,7 +152,7 @@ func NewFuncVC(p *Prog, fn *ssa.Function, c *Contract) *FuncVC {
 		entryComps: map[string]Term{}, structs: map[string]*structInfo{}, strlits: map[string]Term{},
 		strEqDone: map[string]bool{}, declared: map[string]bool{}, loops: map[*ssa.BasicBlock]*loopInfo{},
 		loopOf: map[*ssa.BasicBlock]*loopInfo{}, nonNil: map[ssa.Value]bool{}, localAlloc: map[*ssa.Alloc]bool{},
-		debugRefs: map[string][]*ssa.DebugRef{}, typeIDs: map[string]int{}, boxDecl: map[string]bool{},
+		debugRefs: map[string][]*ssa.DebugRef{}, typeIDs: map[string]int{}, concreteTypes: map[int]types.Type{}, ifaceTypes: map[int]types.Type{}, boxDecl: map[string]bool{},
 		funcDecl: map[string]bool{}, oblSeq: map[string]int{}, abstracted: map[string]int{},
 		assumedUsed: map[string]bool{}, contractUse: map[string]bool{}, iterOf: map[ssa.Value]*iterInfo{}, logicUsed: map[string]bool{}, logTypes: map[string]types.Type{}, axiomDone: map[*Clause]bool{}, skolems: map[string][][]Term{}, funCache: map[string]string{}, escapes: map[ssa.Value][]ssa.Instruction{}, cellConst: map[*ssa.FreeVar]Term{}, freshVals: map[ssa.Value]bool{}, closureOf: map[string]*ssa.Function{}, closureMC: map[string]*ssa.MakeClosure{}}
 	if c != nil {
